@@ -293,9 +293,9 @@ def _c07(tier, seed):
 
 def _c19(tier, seed):
     return [
-        dict(name="handshake", pkg=".", harness=NET_HARNESS + ["harness/root/c06.go", "harness/root/c19.go"], runs=["H_C19_nonces()", "H_C19_exponent()"], solver="cvc5", qtimeout=20000, walllimit=600, timeout=3000,
+        dict(name="handshake", pkg=".", harness=NET_HARNESS + ["harness/root/c06.go", "harness/root/c19.go"], runs=["H_C19_nonces()", "H_C19_exponent()"] + ["H_C19_source_failure(%d)" % k for k in range(3)], solver="cvc5", qtimeout=20000, walllimit=600, timeout=3000, covers={"H_C19_source_failure": ["refused", "delivered"]},
              replay=False, validate=False, noreplay_reason="provenance of random draws exists only in the engine (sources are tagged by the environment stubs)"),
-        dict(name="srp", pkg="telegram/internal/srp", harness=["harness/srp/c18.go", "harness/srp/c19.go"], runs=["H_C19_srp()"], solver="cvc5", qtimeout=20000, walllimit=600, timeout=3000,
+        dict(name="srp", pkg="telegram/internal/srp", harness=["harness/srp/c18.go", "harness/srp/c19.go"], runs=["H_C19_srp()", "H_C19_srp_source_failure()"], solver="cvc5", qtimeout=20000, walllimit=600, timeout=3000, covers={"H_C19_srp_source_failure": ["refused", "delivered"]},
              replay=False, validate=False, noreplay_reason="provenance of random draws exists only in the engine"),
     ]
 
@@ -325,10 +325,10 @@ PROPS = {
     "C19": dict(
         jobs=_c19,
         level_text="bounded symbolic execution of makeAuthKey / GetInputCheckPassword with every random source replaced by fresh symbols tagged by origin (crypto/rand, math/rand, time-seeded generator, clock); the terms sent as nonce, carried in the RSA block (new_nonce), sent as g_b / used as auth key, and sent as SRP A are inspected for the sources they mention (a term that does not mention a source cannot depend on it), and the solver shows each of them takes at least two values",
-        bounds={"quick": "every path of makeAuthKey up to the point each secret is on the wire (leading-zero forks of big.Int.Bytes() included), with symbolic RSA modulus, DH prime and server values; GetInputCheckPassword for one password with symbolic modulus and server value",
+        bounds={"quick": "every path of makeAuthKey up to the point each secret is on the wire (leading-zero forks of big.Int.Bytes() included), with symbolic RSA modulus, DH prime and server values; GetInputCheckPassword for one password with symbolic modulus and server value; each of the four secrets again with an OS random source that may fail (error, no bytes) at any draw",
                 "thorough": "same"},
         outside="entropy quality of the OS source; secrets other than the four named by the property; dependence that is semantic but not syntactic cannot be missed (syntactic mention over-approximates dependence), independence despite a syntactic mention would be a false alarm and is not expected",
-        assumptions=["crypto/rand.Read / crypto/rand.Int return fresh symbols tagged crypto; math/rand.* tagged prng; rand.New(rand.NewSource(..)) tagged prngseeded; time.Now tagged clock"],
+        assumptions=["a failing OS source returns an error and zero bytes (partial reads are not modelled)", "crypto/rand.Read / crypto/rand.Int return fresh symbols tagged crypto; math/rand.* tagged prng; rand.New(rand.NewSource(..)) tagged prngseeded; time.Now tagged clock"],
         technique="bounded symbolic execution of go/ssa with source-tagged symbolic randomness; dependence read off the SMT terms, non-constancy decided by the solver",
     ),
     "C07": dict(
